@@ -180,7 +180,7 @@ def w_dm(ctx, rng, i):
         yn = D.DM(xn, D1)
         ctx.check("dm.shape", yn.signal.shape == x.signal.shape and yn.noise is not None and yn.noise.shape == x.signal.shape and yn.n_pol == n_pol, "DM with noise: layout not preserved")
     ctx.check("input_unchanged", core.digest(x.signal) == d0, "DM/FIBER modified the input")
-    ctx.raises("errors", TypeError, D.DM, T.electrical_signal(np.ones(8)), 1.0)
+    ctx.probe("dm.electrical_input", D.DM, T.electrical_signal(np.ones(8)), 1.0)        # (probe: the statement has no rejection clause)
     ctx.case(("dm", n_pol, n, fs, int(np.sign(D1)), round(math.log10(abs(D1)))), nontrivial=n >= 3, sample={"n": n, "n_pol": n_pol, "fs": fs, "D1": D1, "D2": D2} if i < 4 else None)
     ctx.bin("length_parity", "odd" if n % 2 else "even")
 
@@ -214,7 +214,7 @@ def w_fiber(ctx, rng, i):
         yn = D.FIBER(xn, L1, alpha, b2, b3)
         ctx.check("fiber.shape", yn.signal.shape == x.signal.shape and yn.noise is not None and yn.noise.shape == x.signal.shape, "FIBER with noise: layout not preserved")
     ctx.check("input_unchanged", core.digest(x.signal) == d0, "FIBER modified the input")
-    ctx.raises("errors", TypeError, D.FIBER, T.electrical_signal(np.ones(8)), 1.0)
+    ctx.probe("fiber.electrical_input", D.FIBER, T.electrical_signal(np.ones(8)), 1.0)
     ctx.case(("fiber", n_pol, n, fs, b2 != 0, b3 != 0, alpha > 0, round(math.log10(Ltot))), nontrivial=n >= 3,
              sample={"n": n, "n_pol": n_pol, "fs": fs, "L1": L1, "L2": L2, "beta_2": b2, "beta_3": b3, "alpha": alpha} if i < 4 else None)
     ctx.bin("fiber.terms", f"b2={b2 != 0},b3={b3 != 0},alpha={alpha > 0}")
